@@ -701,6 +701,8 @@ pub enum Op {
     Churn { r: u8, n: u8, commit_each: bool },
     /// commit while the backend rejects the k-th write of that commit (0 = first write)
     FaultyCommit { r: u8, k: u8, info: Option<Vec<(String, J)>> },
+    /// submit again the document this replica submitted last (after whatever happened since)
+    Resubmit { r: u8 },
 }
 
 impl Op {
@@ -723,6 +725,7 @@ impl Op {
             Op::MergeCommit { .. } => "mergecommit",
             Op::Churn { .. } => "churn",
             Op::FaultyCommit { .. } => "faultycommit",
+            Op::Resubmit { .. } => "resubmit",
         }
     }
 }
@@ -813,6 +816,7 @@ pub fn op(m: &Mix) -> BoxedStrategy<Op> {
             .prop_map(|(r, n, commit_each)| Op::Churn { r, n: if commit_each { n.min(13) } else { n }, commit_each })
             .boxed(),
     );
+    add(if m.update > 0 { 1 } else { 0 }, r.prop_map(|r| Op::Resubmit { r }).boxed());
     add(m.faultycommit, (r, 0u8..2, jinfo(false)).prop_map(|(r, k, info)| Op::FaultyCommit { r, k, info }).boxed());
     add(m.mergecommit, (r, any::<u8>(), edit(m.rich)).prop_map(|(r, from, edit)| Op::MergeCommit { r, from, edit }).boxed());
     proptest::strategy::Union::new_weighted(alts).boxed()
